@@ -17,9 +17,10 @@ Theorem code_layout_is_model : translated = true ->
        Z.of_nat p_npars; Z.of_nat (p_npars + s_npars - b2n volfrac_in_p)%nat;    (* S's rows: one fewer when P owns volfraction *)
        Z.of_nat (2 + s_npars)%nat])%Z.                                            (* S's distributions start after its values *)
 Proof.
-  intros Ht. first [ now (vm_compute in Ht; discriminate Ht) | idtac ]. clear Ht.
-  intros p s n vf hb he Hs.
-  unfold code_layout, layoutZ, layout, b2z, b2n. cbn [map app p_lo p_hi er_index s_lo s_hi beta_mode_index er_mode_index mag_lo mag_hi].
-  destruct vf, hb, he; destruct (Nat.ltb_spec 0 (3 * n)); destruct (Z.eqb_spec (3 * Z.of_nat n) 0);
+  (* untranslatable source: the premise is false, the goal is closed and the later sentences are no-ops *)
+  intros Ht. try solve [vm_compute in Ht; discriminate Ht].
+  all: clear Ht; intros p s n vf hb he Hs.
+  all: unfold code_layout, layoutZ, layout, b2z, b2n; cbn [map app p_lo p_hi er_index s_lo s_hi beta_mode_index er_mode_index mag_lo mag_hi].
+  all: destruct vf, hb, he; destruct (Nat.ltb_spec 0 (3 * n)); destruct (Z.eqb_spec (3 * Z.of_nat n) 0);
     cbn [negb]; try lia; repeat (f_equal; try lia).
 Qed.
